@@ -37,6 +37,12 @@ THEOREMS = [
     # heap branch of mutate_subsection_ops under a Varlist cursor
     "sub_ops_heap_refines",
     "hint_fill_then_sub_ops",
+    # args handed back through get_empty_args(SubvarAccess::Args) + fill_args_at_p
+    "args_recycle_id",
+    "args_recycle_id_all",
+    "args_recycle_keeps_subcursor",
+    "args_recycle_completes",
+    "hint_fill_recycle_then_sub_ops",
     # non-vacuity anchors
     "hC_inv",
     "hC_io",
@@ -60,7 +66,17 @@ RULE = (" HINT HELPERS (bin c11h, mode hint-helpers): a second PRNG stream gener
         "at or before the second p); the substate must equal the state pushed through all ops before p whenever the worldline conditions E/W "
         "hold at p (always on the verify-consistent containers), else the scan-level description of the code; iterate_ps = slots "
         "min(ps,L)..min(pe,L), iterate_ops = occupied slots ps..=pe in order, try_ variants = the prefix up to the early exit; reversed "
-        "clamped ps-range and pstart beyond the array with an op before it must panic. Non-trivial = the container holds an op.")
+        "clamped ps-range and pstart beyond the array with an op before it must panic. Non-trivial = the container holds an op. "
+        "RECYCLED ARGS: 3 of 13 history mutations prepare args at a start slot ps (0, an occupied slot, or any slot < cutoff) by one of three routes - "
+        "get_empty_args(All)+fill_args_at_p, Varlist+fill_args_at_p_with_hint with all hints, the same with fewer hints than variables "
+        "(unresolved entries left) - hand them back through get_empty_args(SubvarAccess::Args(args)) + fill_args_at_p(ps, args) and then "
+        "mutate with them (mutate_p / mutate_subsection / mutate_subsection_ops; insert, remove, same-vars and different-vars replacement "
+        "inside the listed variables); oracle: the recycled cursor = scan cursor at ps BEFORE the mutation (fully resolved args must come "
+        "back unchanged), the slots afterwards = the expected ones, and after EVERY mutation of every history get_n, first/last p, successor / "
+        "predecessor walks, per-variable first/last/walks (both directions) and get_count(0..8) = scan (`histbad` line on a mismatch, "
+        "`histpanic` on a panic). One stateless `recycle` line per step (routes A = All+fill, H = Varlist+hint fill incl. partial hints, "
+        "E = empty args; p incl. 0 and occupied slots) compares the recycled cursor with the model (get_empty_args(Args) recomputes only "
+        "`unfilled`) and with the scan.")
 
 
 def run(ck):
